@@ -9,7 +9,9 @@ import (
 )
 
 // E is a typed expression of the query grammar. Kind is the static base kind of the result
-// (int float str bool null); every expression may additionally be NULL at run time.
+// (int float str bool time null); every expression may additionally be NULL at run time. There is no time literal:
+// a time expression is a column reference or a COALESCE of two time expressions, and only exists where a time column is
+// in scope.
 type E struct {
 	Op   string `json:"op"`
 	Kind string `json:"kind"`
@@ -132,6 +134,13 @@ func colsOfKind(scope []ScopeCol, kind string) []ScopeCol {
 func Expr(t *rapid.T, scope []ScopeCol, kind string, depth int, o ExprOpts, label string) E {
 	cols := colsOfKind(scope, kind)
 	leaf := func() E {
+		if kind == "time" {
+			if len(cols) == 0 {
+				panic("gen.Expr: a time expression needs a time column in scope")
+			}
+			c := rapid.SampledFrom(cols).Draw(t, label+"col")
+			return E{Op: "col", Kind: kind, Col: c.Ref}
+		}
 		if len(cols) > 0 && rapid.IntRange(0, 3).Draw(t, label+"leafcol") != 0 {
 			c := rapid.SampledFrom(cols).Draw(t, label+"col")
 			return E{Op: "col", Kind: kind, Col: c.Ref}
@@ -208,6 +217,11 @@ func Expr(t *rapid.T, scope []ScopeCol, kind string, depth int, o ExprOpts, labe
 		default:
 			return E{Op: "fn", S: "coalesce", Kind: kind, Args: []E{sub(kind, "a"), sub(kind, "b")}}
 		}
+	case "time":
+		if rapid.IntRange(0, 3).Draw(t, label+"op") == 0 {
+			return E{Op: "fn", S: "coalesce", Kind: kind, Args: []E{sub(kind, "a"), sub(kind, "b")}}
+		}
+		return leaf()
 	case "bool":
 		switch rapid.IntRange(0, 11).Draw(t, label+"op") {
 		case 0:
@@ -230,7 +244,7 @@ func Expr(t *rapid.T, scope []ScopeCol, kind string, depth int, o ExprOpts, labe
 			if len(colsOfKind(scope, k)) == 0 {
 				k = kindsInScope(scope)[0]
 			}
-			if k == "bool" {
+			if k == "bool" || k == "time" {
 				return leaf()
 			}
 			n := rapid.IntRange(2, 3).Draw(t, label+"inn")
